@@ -279,7 +279,25 @@ func sandboxStream(sum *Summary, model *vd.Model, n int, seed int64) {
 			}
 		} else {
 			if !started || exit != 0 {
-				if fail("valid policy: the target did not run to completion", "") {
+				failing := ""
+				if started {
+					done := 0
+					if t := strings.TrimSpace(out.String()); t != "" {
+						done = len(strings.Split(t, "\n"))
+					}
+					if done < len(c.Events) {
+						ev := c.Events[done]
+						req := fmt.Sprintf("S x86_64 %s %d 3221225534 %d %d %d %d %d %d", c.Policy.Body(), ev.Nr, ev.Args[0], ev.Args[1], ev.Args[2], ev.Args[3], ev.Args[4], ev.Args[5])
+						if reply, err := model.Ask(req); err == nil {
+							var dec uint32
+							fmt.Sscanf(reply, "DEC %d", &dec)
+							if outcome(dec) != "died:sigsys" {
+								failing = fmt.Sprintf("target under the sandbox: it was terminated (exit %d) while issuing probe nr=%d args=%v, for which the policy file says %q (no action of this policy file kills)", exit, ev.Nr, ev.Args, outcome(dec))
+							}
+						}
+					}
+				}
+				if fail("valid policy: the target did not run to completion", failing) {
 					return
 				}
 			} else {
